@@ -653,6 +653,10 @@ func (in *Interp) assertProp(c *Term, label string) {
 	choice := 1 // 1 = proven on this path (implied by pc), 2 = violated somewhere: continue under the assumption that it holds
 	if d < len(in.prefix) {
 		choice = in.prefix[d]
+	} else if in.ex.enough(label) && !c.IsConst() {
+		// this assertion already has counterexample candidates from other paths:
+		// do not spend more solver time on it, continue under the assumption that it holds
+		choice = 2
 	} else {
 		nc := in.tt.Not(c)
 		var v Verdict
@@ -736,4 +740,11 @@ func dumpForks() {
 		}
 		fmt.Fprintf(os.Stderr, "FORK %6d %s\n", e.v, e.k)
 	}
+}
+
+// enough: three counterexample candidates (or unknowns) were already collected for this assertion.
+func (ex *Explorer) enough(label string) bool {
+	ex.mu.Lock()
+	defer ex.mu.Unlock()
+	return ex.cexCount["assert/"+label]+ex.cexCount["unknown/"+label] >= 3
 }
